@@ -240,7 +240,17 @@ func (s *Seq) Clone() *Seq {
 		}
 	}
 
-	return &Seq{literals: cloned}
+	return &Seq{literals: cloned, partialCoverage: s.partialCoverage}
+}
+
+// truncateTo keeps at most n literals. Dropping literals leaves alternation
+// branches without any representative, so the sequence is flagged as partial
+// coverage: it must not be used to skip input.
+func (s *Seq) truncateTo(n int) {
+	if n >= 0 && len(s.literals) > n {
+		s.literals = s.literals[:n]
+		s.partialCoverage = true
+	}
 }
 
 // Minimize removes redundant literals from the sequence.
@@ -433,6 +443,11 @@ func (s *Seq) LongestCommonSuffix() []byte {
 func (s *Seq) CrossForward(other *Seq) {
 	if s.IsEmpty() || other.IsEmpty() {
 		return
+	}
+
+	// A product with a partial-coverage factor is itself partial.
+	if other.partialCoverage {
+		s.partialCoverage = true
 	}
 
 	result := make([]Literal, 0, len(s.literals)*len(other.literals))
